@@ -51,14 +51,17 @@ def check_hp(n, res, viol):
     from black_it.utils import time_series as ts
 
     for sname, base in shapes(n).items():
-        for sc in SCALES:
-            y = base * sc
+        for sc in SCALES + (["float32", "int64"] if n % 3 == 0 or n > 64 else []):
+            # "float32" / "int64": the same numbers handed over in another dtype (a single-precision simulator, a series of counts);
+            # the definition is the one of the exact values, so the double-precision oracle applies unchanged
+            y = base * sc if not isinstance(sc, str) else (base * 100.0).astype(np.float32) if sc == "float32" else np.round(base * 100.0).astype(np.int64)
+            yin, y = y, np.asarray(y, dtype=float)
             for lamb in LAMBDAS:
                 res["evaluations"] += 1
                 res["transitions"] += 1
                 case = {"mode": "hp", "n": n, "shape": sname, "scale": sc, "lamb": lamb}
                 try:
-                    cycle, trend = ts.hp_filter(y.copy(), lamb)
+                    cycle, trend = ts.hp_filter(yin.copy(), lamb)
                 except Exception as e:  # noqa: BLE001
                     viol("hp-raises", f"hp_filter(n={n}, {sname}x{sc}, lambda={lamb}) raised {type(e).__name__}: {e}", case)
                     continue
@@ -74,6 +77,8 @@ def check_hp(n, res, viol):
                     viol("hp-cycle-plus-trend", f"hp_filter(n={n}, {sname}x{sc}, lambda={lamb}): cycle + trend differs from the input by {np.max(np.abs(cycle + trend - y)):.3g}", case)
                 if sname != "constant":
                     res["nontrivial"] += 1
+            if isinstance(sc, str):
+                continue
             # derived filters (lambda 1600)
             c1600 = ts.hp_filter(y.copy(), 1600)[0]
             got = ts.hp_cycle_lamb1600_filter(y.copy())
